@@ -234,6 +234,13 @@ def validate_regex_hypotheses(ck, tier):
             if whole != per_line:
                 bad += 1
                 ck.disagree("hypothesis Fits.search_lines (search hits iff a single line matches) vs CPython re", {"driver": name, "buffer": w.decode("latin1")}, f"whole={whole} per_line={per_line}")
+            elif whole and b"{master:0}" not in w:
+                # hypothesis hfirst of get_prompt_exact (single-line prompts): group(0) of the first match is the first matching line up to blanks
+                first_line = next(ln for ln in w.split(b"\n") if c.search(ln) is not None)
+                if c.search(w).group(0).strip() != first_line.strip():
+                    bad += 1
+                    ck.disagree("hypothesis hfirst (group(0) = first matching line up to blanks) vs CPython re", {"driver": name, "buffer": w.decode("latin1")},
+                                f"group0={c.search(w).group(0)!r} first_line={first_line!r}")
         for blank in (b"", b" ", b"\t ", b"  \t", b"\x0b", b" \x0c "):
             if c.search(blank):
                 ck.disagree("hypothesis Fits.blank (invisible text never matches) vs CPython re", {"driver": name, "buffer": repr(blank)}, "")
